@@ -1,11 +1,13 @@
 // blockpop: C09 blocking pops on the real clock. Scenarios run concurrently, each on its own in-process server
 // through Manager.ExecCommand with real goroutines as clients:
-//   present      element available               -> [key, element] within 0.5 s
-//   timeout      empty, timeout 1                -> nil after >= 1 s and <= 2.2 s
-//   push-later   blocked popper, push at +200 ms -> [key, pushed] within 1 s of the push
-//   two-poppers  two poppers, ONE push           -> exactly one gets it, the other times out with nil; nothing left
-//   multi-key    several keys                    -> first non-empty key in argument order
-//   many         N poppers, M pushes (random)    -> every element to exactly one popper, M - popped left in the list
+//
+//	present      element available               -> [key, element] within 0.5 s
+//	timeout      empty, timeout 1                -> nil after >= 1 s and <= 2.2 s
+//	push-later   blocked popper, push at +200 ms -> [key, pushed] within 1 s of the push
+//	two-poppers  two poppers, ONE push           -> exactly one gets it, the other times out with nil; nothing left
+//	multi-key    several keys                    -> first non-empty key in argument order
+//	many         N poppers, M pushes (random)    -> every element to exactly one popper, M - popped left in the list
+//
 // Promptness bounds are checked here; every scenario's invocation/response history is written for TraceLin.tla
 // (sequential meaning of BLPOP/BRPOP = spec/KsList.tla CmdBPop), which decides exactly-once / no duplication / order.
 package main
@@ -81,6 +83,7 @@ func (x *hist) bad(kind, detail string) {
 	x.anoms = append(x.anoms, anomaly{kind, x.name, x.h, detail})
 	x.mu.Unlock()
 }
+
 // Scheduling-delay monitor: promptness bounds are statements about the server, not about a starved test process. A
 // goroutine sleeps 2 ms at a time and records by how much each sleep overshot; a timing anomaly is a verdict only when
 // no overshoot above 50 ms was seen in the second around it (otherwise it is counted as inconclusive).
@@ -241,6 +244,21 @@ func main() {
 			x.do("SET", "s", "v")
 			x.do("BLPOP", "nokey", "0.05x")
 			x.do("LRANGE", "l2", "0", "-1")
+			// argument order, many times over three non-empty keys: an order that is only USUALLY the argument order (a map walk)
+			// shows within a few dozen pops
+			for i := 0; i < 60; i++ {
+				x.do("RPUSH", "m1", fmt.Sprintf("a%d", i))
+				x.do("RPUSH", "m2", fmt.Sprintf("b%d", i))
+				x.do("RPUSH", "m3", fmt.Sprintf("c%d", i))
+				keys := [][]string{{"m1", "m2", "m3"}, {"m3", "m2", "m1"}, {"m2", "m3", "m1"}}[i%3]
+				cmd := []string{"BLPOP", "BRPOP"}[i%2]
+				o = x.do(cmd, keys[0], keys[1], keys[2], "1")
+				if k, _, ok := pair(o.Reply); !ok || k != keys[0] {
+					x.bad("wrong-reply", fmt.Sprintf("%s %s %s %s 1 with all three non-empty replied %s %v: not from the first key named", cmd, keys[0], keys[1], keys[2], o.Reply.K, o.Reply.A))
+					break
+				}
+				x.do("DEL", "m1", "m2", "m3")
+			}
 		})
 		start("many", func(x *hist, r *rand.Rand) {
 			np, nm := 2+r.Intn(3), 1+r.Intn(4)
